@@ -18,22 +18,30 @@
    translate/fprog.py ([wtable]).
 
    LEVEL OF EXACTNESS REACHED (the tie checks/engine_tie.py compares this model with the emitted code after EVERY
-   iteration of close_until, i.e. at every point where the condition is evaluated):
-     compared up to a renaming of elements that fixes the caller's handles (Sem.Run.check_iso, verdict in Coq):
-       the partition, per relation and per type set the OLD rows and the NEW rows separately, the weight of every root,
-       the number of elements; and exactly: the iteration count of every close/close_until and its result.
+   iteration of close_until, i.e. at every point where the condition is evaluated, in lockstep):
+     compared up to a renaming of elements that fixes the caller's handles (Sem.Iso.iso_map_b on the map found by a
+     python search, sound by Sem.FactsIso.iso_map_b_sound; verdict in Coq):
+       the partition, per relation its rows AND its OLD rows (hence also the new rows), per type the old and the new
+       type set, and the weight of every root;
+     compared exactly (plain numbers): the iteration count and the result of every close/close_until, the number of
+       elements per type at every point, weight 0 of every non-root, stored weights = weights recomputed from the
+       rows (model side), iteration count <= iter_bound for programs without `!`.
      not compared: raw element ids (the model enumerates matches in list order, the emitted loops in index order, so
-       apply_func_defs allocates ids in a different order; the model has ONE id counter, the code one per type), the pending
-       definition list (it lives in a local of close_until and is not observable), the order of anything.
+       apply_func_defs allocates ids in a different order; the model has ONE id counter, the code one per type), the
+       pending definition list (a local of close_until, not observable), the order of anything.
    The one thing the model cannot compute by itself is the outcome of a union of two roots of EQUAL weight: the code
    keeps the root of the first argument of that equate_ call, and which call comes first depends on the order in which
-   the nested loops push equalities -- i.e. on raw ids.  Equal weights are common (two elements that each occur in one
-   row of one relation).  The model is therefore parametrised by a tie-break oracle [tiebreak]; the generated code is
-   the instance "first argument" for API calls (exactly, [tb_first]) and SOME instance inside close_until.  The check
-   searches, iteration by iteration, for the preference list that reproduces the implementation's state (search aid in
-   python) and Coq then replays the run with that advice and judges every state.  All theorems of FactsW.v /
-   Props_Tie.v hold for EVERY oracle, so nothing is assumed about the advice.
-   When no union of an iteration had equal weights the advice is irrelevant and the model is deterministic.
+   the nested loops push equalities -- i.e. on raw ids -- while the new/old split after the iteration depends on which
+   root survived (the rows of the absorbed root are re-inserted as new).  The model is therefore parametrised by a
+   tie-break oracle [tiebreak]; the generated code is the instance "first argument" for API calls (exactly,
+   [tb_first]) and SOME instance inside close_until.  The check searches, iteration by iteration, for the preference
+   list that reproduces the implementation's state (python port of this file as a search aid) and Coq then replays
+   the run with that advice (RunW.run_engineW) and judges every state.  All theorems of FactsW.v / Props_Tie.v hold
+   for EVERY oracle, so nothing is assumed about the advice.  When no union of an iteration had equal weights the
+   advice is irrelevant and the model is deterministic; in the generated corpus about 1 merging iteration in 10 has a
+   tie and about a third of those need advice.
+   Not determined by the model either, and therefore skipped (counted) by the tie: a define_ or a condition f(h..) = h'
+   evaluated while f(args) has several values in one table (which one the generated f(..) returns depends on raw ids).
 
    Deviations kept from Model.v: untyped elements and one id counter; list-level tables; no uprooted list
    (canonicalizeW rewrites every row that mentions a non-root; it first removes ALL such rows -- subtracting their
